@@ -1278,6 +1278,7 @@ fn check_matching_pattern(
         field_mappings.insert(field.name, (field.type_, field.is_public));
         abstract_pattern_nodes.push(pattern_matching::AbstractPatternNode::wildcard());
       }
+      let mut mentioned_field_locs = HashMap::new();
       let mut checked_destructured_names = Vec::new();
       for pattern::ObjectPatternElement {
         loc,
@@ -1297,6 +1298,11 @@ fn check_matching_pattern(
             );
           }
           not_mentioned_fields.remove(&field_name.name);
+          // A field may be destructured only once: the exhaustiveness analysis keeps a single
+          // abstract node per field, while the lowered code tests every element.
+          if let Some(old_loc) = mentioned_field_locs.insert(field_name.name, field_name.loc) {
+            cx.error_set.report_name_already_bound_error(field_name.loc, field_name.name, old_loc);
+          }
           let (checked, abstract_node) =
             check_matching_pattern(cx, pattern, wildcard_on_bad_pattern, field_type);
           let field_order = field_order_mapping.get(&field_name.name).unwrap();
